@@ -99,6 +99,7 @@ type c05StreamOpt struct {
 	params     *utils.Params
 	gOT, eOT   ot.OT
 	pre        *c05Stream // the session has already been run (concurrent sessions)
+	searched   bool       // ... by the placement search of the page-boundary family (c05page.go)
 }
 
 func (o c05StreamOpt) String() string {
@@ -128,7 +129,7 @@ func (o c05StreamOpt) String() string {
 		on   bool
 		name string
 	}{{o.prune, "opt-prune-gates"}, {o.gmw, "target-gmw"}, {o.direct, "Program.Stream"}, {o.pressure, "GOGC=1+GOMAXPROCS=1"},
-		{o.tcp, "tcp-loopback"}, {o.comp != nil, "shared-compiler-params-ot"}, {o.pre != nil, "concurrent-sessions"}} {
+		{o.tcp, "tcp-loopback"}, {o.comp != nil, "shared-compiler-params-ot"}, {o.pre != nil && !o.searched, "concurrent-sessions"}} {
 		if f.on {
 			s = append(s, f.name)
 		}
@@ -761,7 +762,7 @@ func c05Program(c *Ctx, idx int, name string, p c05Prog, frag int) error {
 	if w.err != nil && s.gErr != nil && !s.stalled {
 		// rejected by the compiler in both modes: not a program
 		c.Hist("rejected-by-compiler")
-		if name == "door" || name == "native" {
+		if name == "door" || name == "native" || name == "page-boundary" {
 			return fmt.Errorf("case %d (%s %s): a directed program is rejected by the compiler: %v", idx, name, p.opt.label, w.err)
 		}
 		return nil
@@ -784,6 +785,10 @@ func c05Program(c *Ctx, idx int, name string, p c05Prog, frag int) error {
 		if name == "door" {
 			bad = "c05:error:door:" + p.opt.label
 		}
+		if name == "page-boundary" {
+			// a party gave up (an evaluator panic is recovered into its error)
+			bad = "c05:stream:wire-page-boundary:" + p.opt.label + ":session-failed"
+		}
 	case bigsString(s.gRes) != bigsString(s.eRes):
 		bad, what = "c05:parties-differ", "garbler and evaluator return different values"
 	case bigsString(s.gRes) != bigsString(w.res):
@@ -796,6 +801,9 @@ func c05Program(c *Ctx, idx int, name string, p c05Prog, frag int) error {
 		}
 		if bad == "" && name == "native" {
 			bad = "c05:stream:native-circuit:" + p.opt.label + ":wrong-output"
+		}
+		if bad == "" && name == "page-boundary" {
+			bad = "c05:stream:wire-page-boundary:" + p.opt.label + ":wrong-output"
 		}
 		if bad == "" && name == "entry" && p.opt.eVals != nil {
 			bad = "c05:stream:input-values-entry:wrong-output"
@@ -1121,7 +1129,13 @@ func runC05(c *Ctx) error {
 	if err := c05Walloc(c, &idx); err != nil {
 		return err
 	}
-	return c05Direct(c)
+	if err := c05Direct(c); err != nil {
+		return err
+	}
+	// wire ids exactly on, one below and one above the 64k pages of the wire
+	// stores (last: the family draws from c.rng, the cases before it stay as
+	// they were)
+	return c05PageBoundary(c, &idx)
 }
 
 // c05Replay runs one program given as a JSON file {"src":..., "g":[...], "e":[...]}
